@@ -136,6 +136,9 @@ class Executor(ExecResolve):
         if isinstance(tgt, ast.Name):
             if isinstance(v, V) and v.alias is not None:
                 v = V(v.kind, v.t, v.cls, v.alias)
+            old = st.env.get(tgt.id)
+            if isinstance(v, VDict) and not v.items and self.is_dict(old):
+                v = self.empty_dict(st, old.kind)     # `lookup = {}` where lookup was a (None) dictionary parameter
             st.env[tgt.id] = v
             yield st
         elif isinstance(tgt, (ast.Tuple, ast.List)):
